@@ -25,8 +25,15 @@ def kind_of(tk):
     return tk.split("#")[0]
 
 
-def file_of(tk):
-    return tk.replace("#", "_") + ".py"
+def file_of(tk, scn=None):
+    """base name of the file of target key `tk`: the scenario's own file names when it has some"""
+    return ((scn or {}).get("files") or {}).get(tk) or (tk.replace("#", "_") + ".py")
+
+
+# file names as projects have them (per kind): how they sort relative to each other varies
+FILE_NAMES = {"class": ["config.py", "model_config.py", "base_config.py", "settings.py", "Config.py"],
+              "function": ["train.py", "api.py", "a_train.py", "zz_api.py", "fit_model.py"],
+              "argparse_function": ["cli.py", "parser_args.py", "args.py", "main_cli.py", "build_cli.py"]}
 PLURAL = {"argparse_function": "argparse_functions", "class": "classes", "function": "functions"}
 PRE_STATES = ["missing", "empty", "absent", "stale", "agreeing"]
 # further pre-states: "stale-tail" (class only: the agreeing definition minus its last statement, or plus one more
@@ -296,7 +303,30 @@ def gen_scenario(rng, via="api", runs=2, allow_known=True):
                                  "position": rng.choice(["before", "between", "after"]), "trailing_newline": True,
                                  "ending": "\n", "sur_seed": rng.randint(0, 10 ** 9), "members": 0, "module_doc": False,
                                  "same_named_top": False}
+    second = truth + "#2"
+    if second not in targets and rng.random() < (0.5 if via == "cli" else 0.15):
+        # a second file of the truth's kind (whatever the kind): named after the truth on the command line, it is a target
+        # like any other.  (For a function truth only pre-states without a definition of their own: a definition that is
+        # there keeps its own body.)
+        targets[second] = {"pre": rng.choice(["missing", "empty", "absent"] if truth == "function" else PRE_STATES),
+                           "n_sur": rng.randint(0, 3), "position": rng.choice(["before", "between", "after"]),
+                           "trailing_newline": True, "ending": "\n", "sur_seed": rng.randint(0, 10 ** 9), "members": 0,
+                           "module_doc": False, "same_named_top": False}
+    files = None
+    if rng.random() < (0.7 if via == "cli" else 0.2):
+        # the files carry names of their own (not <kind>.py): in particular the truth need not sort first among the
+        # files of its kind
+        files = {}
+        for k in KINDS:
+            pool = rng.sample(FILE_NAMES[k], 2)
+            files[k] = pool[0]
+            if k + "#2" in targets:
+                files[k + "#2"] = pool[1]
     return {"truth": truth, "given": sorted(given), "names": names, "targets": targets, "ir_seed": rng.randint(0, 10 ** 9),
+            "files": files,
+            # the order of the options on the command line (the files of one kind keep their relative order: the first
+            # file of the truth's kind is the truth)
+            "argv_seed": rng.randint(0, 10 ** 9) if rng.random() < 0.5 else None,
             "via": via, "runs": runs, "truth_sur": rng.randint(0, 2), "truth_sur_seed": rng.randint(0, 10 ** 9),
             "symlink": rng.random() < 0.2, "tilde": rng.random() < 0.15, "body": body,
             "with_returns": truth in ("argparse_function", "class") and rng.random() < 0.5,
@@ -315,9 +345,9 @@ def build_project(scn, root):
     rng = random.Random(scn["ir_seed"])
     ir = safe_ir(rng, with_returns=bool(scn.get("with_returns")), wide=scn.get("wide"))
     stale = mutate_ir(rng, ir)
-    paths = {k: os.path.join(root, k + ".py") for k in KINDS}
+    paths = {k: os.path.join(root, file_of(k, scn)) for k in KINDS}
     for tk in scn["targets"]:
-        paths[tk] = os.path.join(root, file_of(tk))
+        paths[tk] = os.path.join(root, file_of(tk, scn))
     truth, names = scn["truth"], scn["names"]
     for tk, t in scn["targets"].items():
         if t.get("alias_truth"):
@@ -441,16 +471,25 @@ def namespace_for(scn, paths):
 
 
 def cli_argv(scn, paths):
-    argv = ["sync", "--truth", scn["truth"]]
+    pairs = [("--truth", scn["truth"])]
     opt = {"argparse_function": ("--argparse-function", "--argparse-function-name"), "class": ("--class", "--class-name"),
            "function": ("--function", "--function-name")}
     for k in KINDS:
         if k in scn["given"]:
-            argv += [opt[k][0], paths[k], opt[k][1], scn["names"][k]]
+            pairs += [(opt[k][0], paths[k]), (opt[k][1], scn["names"][k])]
             for tk in sorted(scn["targets"]):
                 if "#" in tk and kind_of(tk) == k:
-                    argv += [opt[k][0], paths[tk]]
-    return argv
+                    pairs.append((opt[k][0], paths[tk]))
+    if scn.get("argv_seed") is not None:
+        # any order of the options; the values of a repeated option keep their order (first file of a kind first)
+        import random
+        order = list(pairs)
+        random.Random(scn["argv_seed"]).shuffle(order)
+        queues = {}
+        for o, v in pairs:
+            queues.setdefault(o, []).append(v)
+        pairs = [(o, queues[o].pop(0)) for o, _ in order]
+    return ["sync"] + [x for pr in pairs for x in pr]
 
 
 # ------------------------------------------------------------------ instrumented run (API)
